@@ -18,6 +18,7 @@ RULE = (
     "batch sizes {1, 7, n-1, n, n+3, 25000}.  non-trivial = >=2 interfering chains with |interference fraction|>1e-3; "
     "distinct = card structure key."
 )
+RULE += '  Also: the empty selection (no chain / no resonance) as the empty partial sum; a share of the cards with other registered decay models.'
 ASSUMPTIONS = [
     "the sum rule is judged only when the listed resonances partition the active chains (every chain contains exactly one listed resonance)",
     "the single-chain amplitude tensors themselves are the library's (their correctness is C01-C05); the reference recombines them independently",
